@@ -59,7 +59,7 @@ fixed("C05", "case-under-selection-scatter", "0a0d3cc96", "CASE/COALESCE evaluat
 # model-backed deviations
 switch("C09", "in-any-all-two-valued", "in_two_valued", "x [NOT] IN (SELECT ..) / op ANY / op ALL never yields NULL: a NULL probe or a NULL in the set is treated as no-match (so NOT IN over a set with NULL keeps rows, x > ALL (set with NULL) is TRUE)", "SELECT 5 IN (SELECT y FROM (VALUES (2),(NULL)) b(y))  -- false, expected NULL", ["C01", "C06", "C02", "C03"])
 switch("C09", "correlated-count-null-on-empty", "scalar_count_null_on_empty", "a correlated scalar COUNT subquery yields NULL instead of 0 for outer rows whose correlated set is empty (the classic COUNT bug of decorrelation)", "SELECT (SELECT count(*) FROM b WHERE b.y > a.x) FROM a", ["C01", "C02", "C03"])
-switch("C09", "lateral-null-correlation-drops-outer-row", "lateral_null_outer_dropped", "FROM a, LATERAL (subquery referencing a.k): outer rows whose correlation value is NULL disappear even when the subquery does not depend on the value (join-back on = instead of IS NOT DISTINCT FROM)", "SELECT count(*) FROM a, LATERAL (SELECT a.k FROM b) l  -- rows of a with k NULL are lost", ["C01", "C06", "C02", "C03"])
+switch("C09", "null-correlation-treated-as-empty-set", "null_correlation_empty_set", "a correlated subquery (scalar, EXISTS, IN/ANY/ALL, LATERAL) is evaluated as if it returned no rows for every outer row whose correlation value is NULL, even when the subquery does not compare that value with = (the decorrelated join-back uses = instead of IS NOT DISTINCT FROM): EXISTS -> false, scalar -> NULL, LATERAL drops the outer row", "SELECT k FROM o WHERE EXISTS (SELECT 1 FROM i WHERE o.c IS NULL)  -- rows with o.c NULL are lost", ["C01", "C06", "C02", "C03"])
 
 # engine errors on valid statements
 errmsg("C01", "text-in-subquery-identity-cast-error", "Cast function 'S' cannot handle source type UtfN", "text IN / op ANY / op ALL (subquery) fails: the planner inserts an identity cast Utf8->Utf8 which no cast function accepts", "SELECT 'x' IN (SELECT b FROM t)", ["C09", "C06", "C02", "C03", "C13"])
@@ -74,6 +74,7 @@ errmsg("C01", "planner-column-expr-invalid-table-ref", "Column expr not referenc
 errmsg("C01", "planner-pre-projection-aggregate", "Failed to plan expressions for aggregate pre-projection", "physical planning fails ('Failed to plan expressions for aggregate pre-projection') on valid aggregates over subquery predicates", "WITH c AS (SELECT sum(..) FROM a CROSS JOIN b WHERE 1 IN (SELECT ..) HAVING ..) ..", ["C02", "C03", "C09", "C07"])
 errmsg("C01", "planner-pre-projection-group-by", "Failed to plan expressions for group by pre-projection", "physical planning fails ('Failed to plan expressions for group by pre-projection')", "SELECT .. FROM a CROSS JOIN b CROSS JOIN (..) d WHERE a.k IN (SELECT ..) GROUP BY ..", ["C02", "C03", "C09", "C07"])
 errmsg("C01", "planner-projection", "Failed to plan expressions for projection", "physical planning fails ('Failed to plan expressions for projection') with LATERAL referencing two outer tables", "SELECT -l.z FROM a CROSS JOIN b, LATERAL (SELECT a.x AS z FROM c WHERE c.k <> b.k) l", ["C02", "C03", "C09"])
+errmsg("C01", "planner-arbitrary-join-filter", "Failed to plan expressions arbitrary join filter", "physical planning fails ('Failed to plan expressions arbitrary join filter') for LATERAL subqueries correlated to two different outer tables", "SELECT .. FROM t0 t1, (SELECT ..) d4, LATERAL (SELECT t1.b0 FROM t2 s5 WHERE s5.k < t1.k AND d4.z3 = s5.k) l7", ["C02", "C03", "C09", "C06"])
 errmsg("C01", "nested-cte-not-visible", "Missing table or view for reference 'S'", "a CTE is not visible from a WITH clause nested inside a later sibling CTE / derived table", "WITH a AS (..), b AS (WITH c AS (..) SELECT .. FROM a) SELECT ..", ["C09", "C02", "C03"])
 errmsg("C01", "lateral-ambiguous-column", "Ambiguous column name 'S'", "an unambiguous unqualified column is reported ambiguous when a LATERAL subquery over the same base table is in scope", "WITH c AS (SELECT z + k FROM t0 t1, LATERAL (SELECT 0 AS z FROM t1 s WHERE s.k <> t1.k) l WHERE ..) ..", ["C09", "C02", "C03"])
 errmsg("C01", "subqueries-in-projection-clone-arrays", "Cannot clone arrays with different data types", "execution fails ('Cannot clone arrays with different data types') when the select list holds two subquery expressions (scalar + IN) of different types over a join", "SELECT (SELECT s.k FROM t0 s WHERE a0 = vc3) AS z9, (t4.a IN (SELECT a0 FROM t0)) AS z13 FROM (VALUES ('x', 9)) v1(vc2, vc3) INNER JOIN t1 t4 ON true", ["C09", "C02", "C03"])
@@ -101,6 +102,11 @@ case("C07", "grouping-function-argument-order", "GROUPING(args) ignores the orde
      ["CREATE TEMP TABLE g (k INT)", "INSERT INTO g VALUES (1)"],
      "SELECT (k % 2) AS z2, grouping((k % 2), k) AS z3 FROM g GROUP BY CUBE (k, (k % 2))",
      {"outcome": "rows", "rows": [[1, 0], [None, 2], [1, 1], [None, 3]]}, {"outcome": "rows", "rows": [[1, 0], [None, 1], [1, 2], [None, 3]]}, ["C01", "C02", "C03"])
+
+case("C09", "derived-table-with-alias-reference-inlined-twice-loses-row", "a derived table whose select list uses a lateral alias reference ((k + k) AS z6, (z6 + 1) AS z8) over a LEFT JOIN + CROSS JOIN loses one of its 40 rows when the same derived table text also appears in an uncorrelated scalar subquery of the WHERE clause (39 instead of 40; the WITH / VIEW forms return 40)",
+     ["CREATE TEMP TABLE t0 (k INT, a0 BOOLEAN, b0 BOOLEAN, c0 TEXT)", "CREATE TEMP TABLE t2 (k INT)", "INSERT INTO t2 VALUES (CAST(5 AS INT))", "CREATE TEMP TABLE t3 (k INT, a DOUBLE, b3 DOUBLE)", "INSERT INTO t3 VALUES (CAST(7 AS INT), CAST(7.0::double AS DOUBLE), CAST(NULL AS DOUBLE)), (5, (-1.625)::double, (-9.75)::double), (7, 9.625::double, 9.125::double), (7, (-6.625)::double, 2.875::double), (10, (-0.125)::double, 2.375::double), (7, (-8.0)::double, (-7.875)::double), (7, NULL, (-7.25)::double), (7, (-0.5)::double, (-1.375)::double), (7, (-4.0)::double, 9.25::double), (7, (-9.875)::double, NULL), (7, (-4.5)::double, NULL), (7, 1.125::double, (-9.75)::double), (7, 1.375::double, (-3.875)::double), (7, 4.375::double, 1.5::double), (3, (-1.0)::double, 8.0::double), (7, (-5.25)::double, (-7.5)::double), (7, 6.625::double, (-3.375)::double), (7, 7.625::double, NULL), (7, 3.875::double, 1.25::double), (2, 0.5::double, (-2.375)::double), (1, NULL, (-2.25)::double), (7, (-3.25)::double, (-3.375)::double), (10, 4.125::double, (-2.625)::double), (7, (-0.125)::double, 6.625::double), (7, NULL, 4.125::double), (7, (-1.875)::double, (-10.0)::double), (2, 9.875::double, (-7.375)::double), (7, 9.5::double, NULL), (2, (-6.75)::double, 8.5::double), (7, 7.5::double, (-1.375)::double), (7, (-8.25)::double, (-7.75)::double), (7, 6.125::double, 1.625::double), (2, (-5.5)::double, (-6.75)::double), (7, 3.0::double, 3.75::double), (7, 7.5::double, NULL), (7, (-3.75)::double, 8.375::double), (7, (-5.875)::double, 9.625::double), (NULL, 2.625::double, 2.5::double), (7, 8.125::double, 9.875::double), (7, (-5.75)::double, 9.5::double)"],
+     "SELECT count(*) FROM (SELECT (t1.b3 * 2.0::double) AS z4, (t1.k + t1.k) AS z6, (z6 + 1) AS z8 FROM t3 AS t1 LEFT JOIN t0 AS t2 ON (t1.k <> t2.k) CROSS JOIN t2 AS t3) AS q WHERE (SELECT count(*) FROM (SELECT (t1.b3 * 2.0::double) AS z4, (t1.k + t1.k) AS z6, (z6 + 1) AS z8 FROM t3 AS t1 LEFT JOIN t0 AS t2 ON (t1.k <> t2.k) CROSS JOIN t2 AS t3) AS q2) > 0",
+     {"outcome": "rows", "rows": [[40]]}, {"outcome": "rows", "rows": [[39]]}, ["C01", "C02"])
 
 T2 = ["CREATE TEMP TABLE t2 (k INT, j INT)", "INSERT INTO t2 VALUES (1,2),(2,3),(3,1)"]
 case("C02", "optimizer-cte-self-join", "with the optimizer on, two scans of one CTE in the same FROM clause are confused with each other: the cross product c a, c b returns a's columns for b (wrong rows); with a join condition the join-reorder assertion fires / 'Filter previously used' is raised. Correct with enable_optimizer=false",
